@@ -131,6 +131,38 @@ fn ref_chunks_sched(nwords: usize, wbits: usize, precs: &[usize], init_words: us
     out
 }
 
+/// companion of `ref_chunks_sched`: the leftover bits (lowest first) that the compressed head must hold AFTER
+/// each position; `None` once the data has run out
+fn ref_heads_sched(nwords: usize, wbits: usize, precs: &[usize], init_words: usize) -> Vec<Option<Vec<(usize, usize)>>> {
+    let mut head: Vec<(usize, usize)> = vec![];
+    let mut next_word = nwords as isize - 1 - init_words as isize;
+    let mut out = vec![];
+    let mut dead = false;
+    for &p in precs {
+        if dead { out.push(None); continue; }
+        if p == wbits || head.len() < p {
+            if next_word < 0 { out.push(None); dead = true; continue; }
+            let w = next_word as usize;
+            next_word -= 1;
+            if p != wbits {
+                let mut nh: Vec<_> = (p..wbits).map(|b| (w, b)).collect();
+                nh.extend(head.iter().cloned());
+                head = nh;
+            }
+        } else {
+            head.drain(0..p);
+        }
+        out.push(Some(head.clone()));
+    }
+    out
+}
+/// value of a compressed head holding the given leftover bits of `data` below its marker bit
+fn head_value<W: Copy + Into<u128>>(data: &[W], bits: &[(usize, usize)]) -> u128 {
+    let mut v: u128 = 1u128 << bits.len();
+    for (j, &(w, b)) in bits.iter().enumerate() { v |= ((data[w].into() >> b) & 1) << j; }
+    v
+}
+
 macro_rules! chain_impl {
     ($modname:ident, $W:ty, $S:ty, $P:literal) => {
         pub mod $modname {
@@ -398,6 +430,28 @@ macro_rules! chain_impl {
                             format!("{NAME}: data {:x?} models {:?} position {i}: decoded {:?}, chunk model says {:?}", data, models, base[i], expect)));
                     }
                 }
+                // O1b (through the verification hook): after every position the compressed head holds exactly the
+                // leftover bits the reference says - a bit that is dropped or duplicated is seen at the step that
+                // loses it, not only when it would have been consumed many symbols later
+                {
+                    let precs = vec![$P as usize; count];
+                    let heads = ref_heads_sched(data.len(), WBITS, &precs, init_words_binary());
+                    if let Some(mut c) = load(data, false) {
+                        for i in 0..count {
+                            if dec(&mut c, models[i]).is_err() { break; }
+                            let Some(bits) = &heads[i] else { break };
+                            let (_, _, h, _) = c.clone().verif_into_raw_parts();
+                            let want = head_value(data, bits);
+                            st.ref_chunk_checks += 1;
+                            let h128: u128 = h.into();
+                            if h128 != want {
+                                st.bad.push(("ChainCoder::decode_symbol | the compressed head does not hold exactly the leftover bits of the words read so far".into(),
+                                    format!("{NAME}: data {:x?} models {:?}: after position {i} the head is {:#x}, the reference bit buffer says {:#x}", data, models, h128, want)));
+                                break;
+                            }
+                        }
+                    }
+                }
                 // O2a: single-bit flips
                 for w in 0..data.len() {
                     for b in 0..WBITS {
@@ -510,7 +564,11 @@ macro_rules! schedule_impl {
             let e1 = |c: &mut C1, l: Letter, k: u8| { let (pc, pp) = part_interval(l.prec, l.c, l.p, k); c.encode_symbol((), Raw::<$W, $P1> { c: pc as $W, p: pp as $W }).map_err(|e| format!("{e:?}")) };
             let e2 = |c: &mut C2, l: Letter, k: u8| { let (pc, pp) = part_interval(l.prec, l.c, l.p, k); c.encode_symbol((), Raw::<$W, $P2> { c: pc as $W, p: pp as $W }).map_err(|e| format!("{e:?}")) };
             let mut t1 = vec![]; let mut t2 = vec![]; let mut t3 = vec![];
-            for &l in m1 { match d1(&mut c, l) { Some(k) => { t1.push((l, k)); st.steps += 1; } None => { st.out_of_data += 1; return; } } }
+            // compressed heads after every decode (through the verification hook), for the C14 oracle below
+            let hd1 = |c: &C1| -> u128 { c.clone().verif_into_raw_parts().2.into() };
+            let hd2 = |c: &C2| -> u128 { c.clone().verif_into_raw_parts().2.into() };
+            let mut h1: Vec<u128> = vec![]; let mut h2: Vec<u128> = vec![]; let mut h3: Vec<u128> = vec![];
+            for &l in m1 { match d1(&mut c, l) { Some(k) => { t1.push((l, k)); h1.push(hd1(&c)); st.steps += 1; } None => { st.out_of_data += 1; return; } } }
             // three ways of changing the precision
             for variant in 0..2 {
                 let mut cc: C2 = if variant == 0 {
@@ -522,12 +580,12 @@ macro_rules! schedule_impl {
                 } else {
                     continue;
                 };
-                t2.clear(); t3.clear();
+                t2.clear(); t3.clear(); h2.clear(); h3.clear();
                 let mut out = false;
-                for &l in m2 { match d2(&mut cc, l) { Some(k) => { t2.push((l, k)); st.steps += 1; } None => { out = true; break; } } }
+                for &l in m2 { match d2(&mut cc, l) { Some(k) => { t2.push((l, k)); h2.push(hd2(&cc)); st.steps += 1; } None => { out = true; break; } } }
                 if out { st.out_of_data += 1; continue; }
                 let mut c3: C1 = match cc.change_precision::<$P1>() { Ok(x) => x, Err(_) => { st.out_of_data += 1; continue; } };
-                for &l in m3 { match d1(&mut c3, l) { Some(k) => { t3.push((l, k)); st.steps += 1; } None => { out = true; break; } } }
+                for &l in m3 { match d1(&mut c3, l) { Some(k) => { t3.push((l, k)); h3.push(hd1(&c3)); st.steps += 1; } None => { out = true; break; } } }
                 if out { st.out_of_data += 1; continue; }
                 // C14 under a precision schedule: every decoded symbol is what its model assigns to its chunk of the data
                 {
@@ -536,6 +594,16 @@ macro_rules! schedule_impl {
                     let init_words = { let need = sbits - wbits - $P1; (need + wbits - 1) / wbits };
                     let precs: Vec<usize> = t1.iter().map(|_| $P1 as usize).chain(t2.iter().map(|_| $P2 as usize)).chain(t3.iter().map(|_| $P1 as usize)).collect();
                     let chunks = ref_chunks_sched(data.len(), wbits, &precs, init_words);
+                    let heads = ref_heads_sched(data.len(), wbits, &precs, init_words);
+                    for (i, &h) in h1.iter().chain(h2.iter()).chain(h3.iter()).enumerate() {
+                        let Some(bits) = &heads[i] else { break };
+                        let want = head_value(data, bits);
+                        if h != want {
+                            st.bad.push(("C14:ChainCoder::decode_symbol | precision schedule | the compressed head does not hold exactly the leftover bits of the words read so far".into(),
+                                format!("{name} (variant {variant}): data {:x?} models {:?}/{:?}/{:?}: after position {i} the head is {h:#x}, the reference bit buffer says {want:#x}", data, m1, m2, m3)));
+                            break;
+                        }
+                    }
                     for (i, &(l, k)) in t1.iter().chain(t2.iter()).chain(t3.iter()).enumerate() {
                         st.ref_chunk_checks += 1;
                         let expect = chunks[i].as_ref().map(|bits| {
